@@ -7,7 +7,9 @@
 //
 //	        0 ...  direct limits.Group histories            (group_test.go)
 //	1_000_000 ...  key-population runs through limits.Group (population_test.go)
+//	1_500_000 ...  keys held across a full bucket table     (population_test.go)
 //	2_000_000 ...  SMTP endpoint with a limits block        (endpoint_test.go)
+//	2_500_000 ...  one domain in all its spellings at once  (spelling_test.go)
 //	3_000_000 ...  remote target, destination scope          (remote_test.go)
 //	3_500_000 ...  remote target, next-hop fault matrix      (remote_fault_test.go)
 //	4_000_000 ...  limiters.BucketSet with a small table     (bucket_test.go)
